@@ -33,6 +33,7 @@ OBLIGATIONS = {
     "flip_length": "a bit was flipped in the length", "flip_checksum": "a bit was flipped in the checksum",
     "flip_payload": "a bit was flipped in the payload",
     "beyond_list_limit": "a payload one entry beyond another implementation's per-command list limit was received",
+    "long_stream": "one connection delivering 1200 messages",
     "long_dribble": "a payload of >= 1000 bytes delivered one byte per recv()",
     "two_messages_back_to_back": "a stream with >= 2 messages was explored",
     "codec_count_253": "a codec count crossed the 252/253 CompactSize boundary",
@@ -224,7 +225,11 @@ NAMES = ["verack", "ping", "inv", "addr", "version", "unknown", "tx300"]
 def chk_schedule(case):
     """one fixed execution: stream + magic + explicit choice list (or a named policy)"""
     magic = bytes.fromhex(case["magic"])
-    if "big_size" in case:
+    if "stream_names" in case:
+        names, count = case["stream_names"]
+        A_ = alphabet(case.get("seed", 0))
+        stream = b"".join(A_[names[i % len(names)]] for i in range(count))
+    elif "big_size" in case:
         stream = R.frame(magic, case.get("big_cmd", "block").encode(), filler(case.get("seed", 0), "c17-big", case["big_size"])) + alphabet(case.get("seed", 0))["ping"]
     else:
         stream = bytes.fromhex(case["stream"])
@@ -232,7 +237,8 @@ def chk_schedule(case):
         ex = Explorer(lambda ctx: drive(stream, magic, ctx, menu=_menu(case.get("menu"))), cache=False)
         ctx, obs = ex.one(case["choices"])
     else:
-        obs = drive(stream, magic, policy=POLICIES[case["policy"]](case.get("at", 0)))
+        obs = drive(stream, magic, policy=POLICIES[case["policy"]](case.get("at", 0)),
+                    max_msgs=(case["stream_names"][1] + 8) if "stream_names" in case else 8)
     return judge(stream, magic, obs)
 
 
@@ -241,6 +247,8 @@ POLICIES = {
     "bytewise": lambda at: (lambda off, k, m: 1),
     "split_before": lambda at: (lambda off, k, m: (at - off) if off < at <= off + m else m),
     "split_after": lambda at: (lambda off, k, m: (at + 1 - off) if off < at + 1 <= off + m else m),
+    "chunk1448": lambda at: (lambda off, k, m: min(m, 1448)),
+    "chunk7": lambda at: (lambda off, k, m: min(m, 7)),
 }
 
 
@@ -386,6 +394,15 @@ def seq_ops(job):
     ops.append(("codec", {"type": "version", "start_height": 1, "recv_port": 2, "trans_port": 3, "protocol_version": 60002, "services": 1,
                           "relay": True, "timestamp": 5}))
     ops.append(("codec", {"type": "ping", "nonce": 77}))
+    if job.get("part") == "seq":
+        # two different payloads with the same 4-byte checksum, received one after the other and in one stream
+        from vf.classes import truncated_digest_collision
+        pre = filler(job["seed"], "c17-coll", 20)
+        x, y = truncated_digest_collision(lambda i: pre + i.to_bytes(4, "big"))
+        mg = MAGIC["mainnet"]
+        fx, fy = R.frame(mg, b"inv", x), R.frame(mg, b"inv", y)
+        ops += [("schedule", {"stream": fx.hex(), "magic": magic, "policy": "whole"}), ("schedule", {"stream": fy.hex(), "magic": magic, "policy": "whole"}),
+                ("schedule", {"stream": (fx + fy + fx).hex(), "magic": magic, "policy": "bytewise"})]
     return ops
 
 
@@ -402,6 +419,7 @@ def jobs(tier, seed):
     pairs = [("ping", "inv"), ("version", "verack"), ("unknown", "ping")] if tier == "quick" else \
         [("ping", "inv"), ("version", "verack"), ("unknown", "ping"), ("addr", "addr"), ("verack", "tx300"), ("inv", "version")]
     js.append({"name": "frag-listlimits", "part": "listlimits", "weight": 12})
+    js.append({"name": "long-stream", "part": "longstream", "weight": 8})
     for a, b in pairs:
         js.append({"name": f"flip/{a}+{b}", "part": "flip", "msgs": [a, b], "weight": 20})
         js.append({"name": f"trunc/{a}+{b}", "part": "trunc", "msgs": [a, b], "weight": 20})
@@ -512,6 +530,19 @@ def run_job(job):
                 acc.violation("schedule", {"stream_desc": f"block({job['size']}B)+ping", **({"stream": stream.hex()} if len(stream) < 5000 else {"big_size": job["size"]}),
                                            "magic": magic.hex(), "policy": pol, "at": at}, key, desc + f" [{pol} schedule on a {job['size']}-byte payload]")
         acc.sample({"big_payload": job["size"], "executions": ex.executions, "states": ex.states})
+    elif part == "longstream":
+        # ONE connection delivering 1200 messages (every alphabet message, cyclically): whole-buffer reads, MTU-sized reads, 7-byte
+        # reads and one byte per recv() - a long history through recv_msg on the same socket
+        names = [nm for nm in NAMES if nm != "tx300"]
+        stream = b"".join(A[names[i % len(names)]] for i in range(1200))
+        for pol, at in (("whole", 0), ("bytewise", 0), ("chunk1448", 0), ("chunk7", 0)):
+            case = {"stream_names": [names, 1200], "seed": seed, "magic": magic.hex(), "policy": pol, "at": at}
+            acc.evaluations += 1
+            acc.executions += 1
+            acc.nontrivial += 1
+            acc.ob("long_stream")
+            acc.check("schedule", case, chk_schedule)
+        acc.sample({"long_stream_messages": 1200, "bytes": len(stream)})
     elif part == "listlimits":
         # payloads one entry beyond the list limits other node software applies per command (addr 1000 x 30, inv/getdata 50000 x 36,
         # headers 2000 x 81, + the count byte(s)), a transaction of 100 001 bytes and a block of 4 000 001 bytes: the framing layer
